@@ -5,6 +5,7 @@ from . import hashes
 
 BUILD = "/verif/.build"
 MODEL_BIN = BUILD + "/ocaml/model_driver"
+IMPL = os.environ.get("VERIF_IMPL_DIR", BUILD)      # where the harness binaries and scratch caches live
 
 class ModelProc:
     def __init__(self):
@@ -48,7 +49,7 @@ class ModelProc:
 
 class ImplProc:
     def __init__(self, flavour: str, cache: str, ext: str, link_to=False, env=None, timeout_ms=20000, wrapper=None):
-        exe = f"{BUILD}/bin/cch-{flavour}" + ("-link_to" if link_to else "")
+        exe = f"{IMPL}/bin/cch-{flavour}" + ("-link_to" if link_to else "")
         e = dict(os.environ)
         e["CCH_TIMEOUT_MS"] = str(timeout_ms)
         if env:
